@@ -59,6 +59,7 @@ type Universe struct {
 	litOrder []string
 	extraSorts map[string]bool
 	fnConsts   map[string]bool
+	specSeqs   map[string]bool
 }
 
 func newUniverse(P *Program) *Universe {
@@ -414,6 +415,9 @@ func (U *Universe) prelude() string {
 	b.WriteString("; ---- sorts\n")
 	var seqNames []string
 	for s := range U.seqs {
+		if U.specSeqs[s] {
+			continue
+		}
 		seqNames = append(seqNames, s)
 	}
 	sort.Strings(seqNames)
@@ -508,6 +512,7 @@ func (U *Universe) prelude() string {
 	for _, si := range late {
 		emit(si)
 	}
+	b.WriteString("(declare-datatypes ((Fuel 0)) (((FZ) (FS (FS.p Fuel)))))\n")
 	b.WriteString("; ---- sequences\n")
 	for _, s := range seqNames {
 		e := U.seqs[s]
